@@ -102,10 +102,10 @@ func runMigrate() *ShardResult {
 	res := newResult()
 	thorough := *fTier == "thorough"
 	deadline := time.Now().Add(*fBudget)
-	lengths := []int{0, 1, 2, 3}
+	lengths := []int{0, 1, 2, 3, 4}
 	sizes := []int{0, 1, 31, 32, 33}
 	if thorough {
-		lengths = []int{0, 1, 2, 3, 4}
+		lengths = []int{0, 1, 2, 3, 4, 5}
 	}
 	batchBytes := []int{0, 1, 32, 33, 64, 65, 1 << 30}
 	firsts := []uint64{1, 5}
